@@ -222,6 +222,12 @@ func (c *trCtx) rangeStmt(x *ast.RangeStmt, k trK) trLines {
 		elemTy = u.Elem()
 	case *types.Map:
 		return c.rangeRec(x, u.Key(), u, k)
+	case *types.Basic:
+		if u.Info()&types.IsString != 0 {
+			// for i, ch := range s: byte offset and rune of every UTF-8 sequence
+			return c.rangeRec(x, nil, nil, k)
+		}
+		trFail(x.Pos(), "range over %s is outside the subset", tx)
 	default:
 		trFail(x.Pos(), "range over %s is outside the subset", tx)
 	}
@@ -369,7 +375,14 @@ func (c *trCtx) rangeRec(x *ast.RangeStmt, elemTy types.Type, m *types.Map, k tr
 			valName = c.local(c.info().Defs[id])
 		}
 	}
-	et := c.leanType(elemTy, x.Pos())
+	strMode := elemTy == nil && m == nil
+	var et string
+	if strMode {
+		et = "(Int × Char)"
+		xs = "(Strings.runes " + xs + ")"
+	} else {
+		et = c.leanType(elemTy, x.Pos())
+	}
 	resTy := ttyp
 	exit := tuple
 	if flow {
@@ -393,7 +406,7 @@ func (c *trCtx) rangeRec(x *ast.RangeStmt, elemTy types.Type, m *types.Map, k tr
 	items := c.fresh("items")
 	el := c.fresh("el")
 	idx := ""
-	if m == nil && keyName != "" {
+	if m == nil && keyName != "" && !strMode {
 		idx = c.fresh("idx")
 	}
 	recArgs := func(first bool) string {
@@ -427,6 +440,13 @@ func (c *trCtx) rangeRec(x *ast.RangeStmt, elemTy types.Type, m *types.Map, k tr
 			body = trLet(keyName, et, trOne(el), body)
 		}
 		body = trIte("(!Option.isSome (AMap.find? "+mapNow+" "+el+"))", trOne(recArgs(false)), body)
+	} else if strMode {
+		if valName != "" {
+			body = trLet(valName, "Char", trOne(el+".2"), body)
+		}
+		if keyName != "" {
+			body = trLet(keyName, "Int", trOne(el+".1"), body)
+		}
 	} else {
 		if valName != "" {
 			body = trLet(valName, et, trOne(el), body)
